@@ -1038,3 +1038,6 @@ V("solver-config-asarray", "break", ["C15"], BS, "        self.dom_heuristic_par
   expect_rule="R-GLOBAL-STATE")
 V("solver-config-array-copy-true", "neutral", ["C15", "C11", "C12"], BS, "        self.dom_heuristic_params = np.array(dom_heuristic_params, dtype=np.int64)\n",
   "        self.dom_heuristic_params = np.array(dom_heuristic_params, dtype=np.int64, copy=True)\n", "explicit copy=True")
+# ---- R-SOLE-CANDIDATE candidate-test-bypassed (round 6, C08-x1)
+V("max-eq-candidate-elif", "break", ["C02", "C08"], P + "max_eq_propagator.py", "        if x[i, MAX] >= y[MIN]:", "        elif x[i, MAX] >= y[MIN]:",
+  "the candidate test merged into an elif of the 'cut back to y.max' test: a variable cut back in this execution is not counted", "compute_domains_max_eq", expect_rule="R-SOLE-CANDIDATE")
